@@ -98,3 +98,127 @@ pub fn replay_pair(prefix: &str, case: &J) -> CaseResult {
         Err((msg, o)) => CaseResult::Fail(Failure { msg, sig: pair_sig(prefix, &o), case: case.clone() }),
     }
 }
+
+// ------------------------------------------------------------------------------------------------
+// batches of single-clause rules with an expected status each
+
+use crate::ast::{file_of, print_file, Let, Rule};
+
+pub struct Expect {
+    pub rule: Rule,
+    pub want: St,
+    pub why: String,
+}
+
+/// Evaluate all rules in one file; on a mismatch re-run the offending rule alone to obtain a
+/// minimal reproduction. `prefix` names the property in signatures; `sigf` refines the signature
+/// from the failing expectation.
+pub fn check_expected(
+    prefix: &str,
+    doc: &str,
+    lets: &[Let],
+    exps: &[Expect],
+    evals: &mut u64,
+    sigf: &dyn Fn(&Expect) -> Option<String>,
+) -> Result<(), Vec<Failure>> {
+    if exps.is_empty() {
+        return Ok(());
+    }
+    let mk = |rules: Vec<Rule>| {
+        let mut f = file_of(rules);
+        f.lets = lets.to_vec();
+        for (i, r) in f.rules.iter_mut().enumerate() {
+            r.name = format!("c{}", i);
+        }
+        print_file(&f)
+    };
+    let text = mk(exps.iter().map(|e| e.rule.clone()).collect());
+    *evals += 1;
+    let (v, _) = verdict(doc, &text);
+    let single = |e: &Expect| -> Option<Failure> {
+        let t1 = mk(vec![e.rule.clone()]);
+        let (v1, _) = verdict(doc, &t1);
+        let ok = matches!(&v1, Verdict::Ok { rules, .. } if rules.len() == 1 && rules[0].1 == e.want);
+        if ok {
+            return None;
+        }
+        let sig = match &v1 {
+            Verdict::Panic(p) => format!("panic:{}", p.split(' ').next().unwrap_or("")),
+            Verdict::ParseErr(_) => format!("{}:generator-invalid", prefix),
+            _ => sigf(e).unwrap_or_else(|| format!("{}:unexpected-status", prefix)),
+        };
+        Some(Failure {
+            msg: format!("{}: expected {} ; tool reports {}", e.why, e.want.text(), v1.short()),
+            case: json!({"kind": "expected-status", "doc": doc, "rules": t1, "want": e.want.text(), "why": e.why, "sig": sig}),
+            sig,
+        })
+    };
+    match &v {
+        Verdict::Ok { rules, .. } if rules.len() == exps.len() => {
+            let mut fails = vec![];
+            for (e, (_, got)) in exps.iter().zip(rules) {
+                if *got != e.want {
+                    if let Some(f) = single(e) {
+                        if !fails.iter().any(|x: &Failure| x.sig == f.sig) {
+                            fails.push(f);
+                        }
+                    } else {
+                        fails.push(Failure {
+                            msg: format!("batch-only disagreement on {}", e.why),
+                            sig: format!("{}:batch-only", prefix),
+                            case: json!({"kind": "expected-status-batch", "doc": doc, "rules": text}),
+                        });
+                    }
+                }
+            }
+            if fails.is_empty() {
+                Ok(())
+            } else {
+                Err(fails)
+            }
+        }
+        _ => {
+            // the whole file failed (error / panic): find the culprit(s)
+            let mut fails = vec![];
+            for e in exps {
+                *evals += 1;
+                if let Some(f) = single(e) {
+                    if !fails.iter().any(|x: &Failure| x.sig == f.sig) {
+                        fails.push(f);
+                    }
+                }
+            }
+            if fails.is_empty() {
+                fails.push(Failure {
+                    msg: format!("file evaluates rule by rule but not as a whole: {}", v.short()),
+                    sig: format!("{}:batch-only", prefix),
+                    case: json!({"kind": "expected-status-batch", "doc": doc, "rules": text}),
+                });
+            }
+            Err(fails)
+        }
+    }
+}
+
+pub fn replay_expected(prefix: &str, case: &J, sig: &str) -> CaseResult {
+    let doc = case["doc"].as_str().unwrap_or("");
+    let rules = case["rules"].as_str().unwrap_or("");
+    let (v, _) = verdict(doc, rules);
+    if case["kind"] == "expected-status-batch" {
+        return match v {
+            Verdict::Ok { .. } => CaseResult::Pass(Info::default()),
+            _ => CaseResult::Fail(Failure { msg: format!("file does not evaluate: {}", v.short()), sig: format!("{}:batch-only", prefix), case: case.clone() }),
+        };
+    }
+    let want = St::parse(case["want"].as_str().unwrap_or("")).unwrap_or(St::Pass);
+    let ok = matches!(&v, Verdict::Ok { rules, .. } if rules.len() == 1 && rules[0].1 == want);
+    if ok {
+        CaseResult::Pass(Info::default())
+    } else {
+        CaseResult::Fail(Failure {
+            msg: format!("{}: expected {} ; tool reports {}", case["why"].as_str().unwrap_or(""), want.text(), v.short()),
+            sig: case["sig"].as_str().unwrap_or(sig).to_string(),
+            case: case.clone(),
+        })
+    }
+}
